@@ -1,7 +1,11 @@
 /-
-C01 — Type safety: accepted programs never go wrong in the interpreter. (Work in progress.)
+C01 — Type safety: accepted programs never go wrong in the interpreter. Full statements: `ZV/Props/C01Statements.lean`; a statement counts as proved only when a
+`theorem` of exactly that proposition appears below.
 -/
 import ZV.Model.Machine
+import ZV.Model.ZCore
+import ZV.Model.ZCoreSpec
+import ZV.Props.C01Statements
 
 namespace ZV.Props.C01
 open ZV.Machine
